@@ -217,9 +217,10 @@ KeyQ    == IF KeyDeadlines = {} THEN 0 ELSE MinOf(KeyDeadlines)
 ExpDue  == ~Manual /\ expQ # 0 /\ now >= expQ
 RemDue  == ~Manual /\ remQ # 0 /\ now >= remQ
 KeyDue  == ~Manual /\ KeyQ # 0 /\ now >= KeyQ
-ExpMust == ~Manual /\ expQ # 0 /\ now >= expQ + 1
-RemMust == ~Manual /\ remQ # 0 /\ now >= remQ + 1
-KeyMust == ~Manual /\ KeyQ # 0 /\ now >= KeyQ + 1
+SweepSlack == 0      \* extra ticks a sweeper may be late (trace validation under load: 1)
+ExpMust == ~Manual /\ expQ # 0 /\ now >= expQ + 1 + SweepSlack
+RemMust == ~Manual /\ remQ # 0 /\ now >= remQ + 1 + SweepSlack
+KeyMust == ~Manual /\ KeyQ # 0 /\ now >= KeyQ + 1 + SweepSlack
 
 \* operations of the API
 Settled ==
@@ -669,7 +670,7 @@ NeverLostNeverTwice == [][
 \* (modelling of the sweeper's period; the harness checks the same on the real broker with slack)
 OverdueKeysGone ==
   (~Manual /\ pend = <<>> /\ step.act \in {"Publish", "Remove", "ReadState", "ReadStream", "Clear"}) =>
-     \A k \in DOMAIN st : st[k].exp = 0 \/ st[k].exp + 1 >= now
+     \A k \in DOMAIN st : st[k].exp = 0 \/ st[k].exp + 1 + SweepSlack >= now
 
 (* ---- C19, map half ---- *)
 VersionExact == [][
@@ -701,6 +702,8 @@ ConfigsPer    == {Cfg("per", FALSE, 0, 1, 1, 0), Cfg("per", TRUE, 0, 2, 2, 0)}
 ConfigsEph    == {Cfg("eph", FALSE, 1, 0, 0, 0), Cfg("eph", TRUE, 2, 0, 0, 0)}
 ConfigsChecks == {Cfg("rec", FALSE, 1, 2, 2, 3), Cfg("per", TRUE, 0, 1, 1, 0)}
 ConfigsTime   == {Cfg("rec", FALSE, 1, 2, 2, 3), Cfg("rec", TRUE, 2, 1, 1, 2), Cfg("eph", FALSE, 1, 0, 0, 0)}
+ConfigsTimeQ  == {Cfg("rec", FALSE, 1, 2, 2, 3), Cfg("eph", FALSE, 1, 0, 0, 0)}
+ConfigsRace   == {Cfg("rec", FALSE, 1, 2, 3, 3), Cfg("rec", TRUE, 1, 1, 1, 1), Cfg("eph", FALSE, 1, 0, 0, 0)}
 ConfigsAll    == ConfigsRec \cup ConfigsRecOrd \cup ConfigsPer \cup ConfigsEph
 ConfigsSim    == {Cfg("rec", FALSE, 1, 2, 3, 5), Cfg("rec", TRUE, 3, 3, 1, 5), Cfg("rec", FALSE, 2, 1, 4, 6),
                   Cfg("rec", TRUE, 1, 3, 6, 6), Cfg("rec", FALSE, 2, 2, 2, 4),
@@ -711,11 +714,14 @@ ConfigsManual == {Cfg("rec", FALSE, 1, 3, 50, 50), Cfg("rec", TRUE, 2, 2, 50, 50
 KeySeq2 == <<"a", "b">>
 KeySeq3 == <<"a", "b", "c">>
 KeySeq4 == <<"a", "b", "c", "d">>
+SlackOne == 1
 ScoresSim == {-1, 0, 1}
 ScoresPages == {-2, -1, 0, 1, 2}     \* the harness maps -2 / 2 to math.MinInt64 / math.MaxInt64
 ScoresPagesQuick == {-2, 0, 2}
 ReadEpsSmall == {1}
 SinceOffsSmall == {0, 1, 3}
 LimitsSmall == {-1, 0, 1}
+LimitsTiny == {-1, 1}
+SinceOffsTiny == {0, 1}
 LimitsBig   == {-1, 0, 1, 2, 3}
 =============================================================================
